@@ -216,6 +216,10 @@ ASSUMPTIONS = ['canonical state = digest of every live library (contents, '
                'only; what the edited object holds afterwards (and whether a refused '
                'edit left it intact) is not judged, only that no OTHER object changed '
                'and that untouched loaded libraries still behave as freshly loaded',
+               'edit programs: the edited sites are the correlations of GROUPS; the '
+               'uncertainty block (RMSE correlation, matrix) is not an edit site here - '
+               'Update hands the source\'s uncertainty block to the target as the same '
+               'object, which this family therefore does not observe',
                'environment programs: a process that has imported the package and '
                'called nothing is taken to carry the process-wide state of a fresh '
                'process (plans run in forks of such a process; baselines in spawned '
